@@ -38,6 +38,7 @@ Probe == << PrintS(<<UCall("F", <<I(1)>>), Str(" "), UCall("G", <<I(2)>>), Str("
             Let("A", Str("retyped")), Let("I", Str("s")), Let("E", Str("s")) >>
 
 Garbage == <<")", "end", "@", "loop", "\"", "0x", "function">>
+Thorough == Env("VERIF_TIER", "quick") = "thorough"
 
 \* Does a complete redefinition of an existing function (F/1, G/1, G/2) of victim vi lie entirely before
 \* token position k (for cut) / not contain position k (for del, rep)?  Such a text, when rejected for an
@@ -53,6 +54,12 @@ Derived(vi) ==
   {[how |-> IF RedefBefore(vi, k + 1) THEN "cut-redef" ELSE "cut", t |-> SubSeq(tk, 1, k)] : k \in 1..(Len(tk) - 1)}
   \cup {[how |-> IF RedefAway(vi, k) THEN "del-redef" ELSE "del", t |-> SubSeq(tk, 1, k - 1) \o SubSeq(tk, k + 1, Len(tk))] : k \in 1..Len(tk)}
   \cup {[how |-> IF RedefAway(vi, k) THEN "rep-redef" ELSE "rep", t |-> SubSeq(tk, 1, k - 1) \o <<Garbage[1 + (k % Len(Garbage))]>> \o SubSeq(tk, k + 1, Len(tk))] : k \in 1..Len(tk)}
+  \* thorough tier: every garbage token at every position, a token doubled, two neighbours swapped
+  \cup (IF Thorough
+        THEN {[how |-> "rep", t |-> SubSeq(tk, 1, k - 1) \o <<Garbage[g]>> \o SubSeq(tk, k + 1, Len(tk))] : k \in 1..Len(tk), g \in DOMAIN Garbage}
+             \cup {[how |-> "dup", t |-> SubSeq(tk, 1, k) \o <<tk[k]>> \o SubSeq(tk, k + 1, Len(tk))] : k \in 1..Len(tk)}
+             \cup {[how |-> "swap", t |-> SubSeq(tk, 1, k - 1) \o <<tk[k + 1], tk[k]>> \o SubSeq(tk, k + 2, Len(tk))] : k \in 1..(Len(tk) - 1)}
+        ELSE {})
 
 VARIABLE p
 Init == p \in UNION {{[v |-> v, d |-> x] : x \in Derived(Victims[v])} : v \in DOMAIN Victims}
